@@ -283,4 +283,192 @@ theorem tickCb_deliv {fn : Nat} {v : Option Val} {t0 : List Act} (c : Cfg) (cb) 
       · exact h1
   · exact h
 
+
+/-! ### `Deliv` under a callback of the stepping task -/
+
+theorem held_result_of_nstep {c : Cfg} {fn wf : Nat} {wk : Option WF} {aw : List (Nat × Nat)} {v : Option Val}
+    (hr : Rob c) (hns : c.stepping = false) (hst : c.st = .waiting fn wf wk aw) (hh : Holds c wf wk v) :
+    c.wfs[wf]? = some (.result v) := by
+  rcases hh with g | ⟨⟨k, g⟩, _⟩
+  · exact g
+  · have := (hr.intr wf k (by rw [hst]; rfl) g).1
+    rw [hns] at this; cases this
+
+theorem plain_of_nstep {c : Cfg} (hr : Rob c) (hns : c.stepping = false) : Plain c := by
+  intro i hi; rw [hr.int0 hns] at hi; cases hi
+
+/-- between two steps of one callback (at least two iterations of fuel left): the loop keeps `Deliv` -/
+theorem loopHead_mid_deliv {fn : Nat} {v : Option Val} {t0 : List Act} (P : Prog) (m : Nat) (d : Cfg) (hm : Mid d)
+    (h : Deliv fn v t0 d) : Deliv fn v t0 (loopHead P (m + 2) d) := by
+  cases h with
+  | held wf wk aw hst hh ht =>
+    have hw := held_result_of_nstep hm.rob hm.nstep hst hh
+    have hlive : terminal d.st.label = false := by rw [hst]; simp [SObj.label, terminal, allowed]
+    have hcl := not_closed_of_live hm.inv hlive
+    cases hpa : d.paused with
+    | none =>
+      obtain ⟨x, hx⟩ := loopHead_waiting_delivers P m d fn wf wk aw v hst hw (plain_of_nstep hm.rob hm.nstep) hm.ncr hcl hpa
+      exact .done x (by rw [hx, ht]; rfl)
+    | some pf =>
+      rw [loopHead_blocked P (m + 1) d pf hm.ncr hlive hcl hpa (hm.invP.pausedPending hlive pf hpa)]
+      exact .held wf wk aw hst hh ht
+  | ready hst hns ht =>
+    have hlive : terminal d.st.label = false := by rw [hst]; simp [SObj.label, terminal, allowed]
+    have hcl := not_closed_of_live hm.inv hlive
+    cases hpa : d.paused with
+    | none =>
+      obtain ⟨x, hx⟩ := loopHead_activates P (m + 1) d fn (argsOf v) hst hm.ncr hcl hpa
+      exact .done x (by rw [hx, ht]; rfl)
+    | some pf =>
+      rw [loopHead_blocked P (m + 1) d pf hm.ncr hlive hcl hpa (hm.invP.pausedPending hlive pf hpa)]
+      exact .ready hst hns ht
+  | over hterm ht =>
+    have hf := loopHead_terminal_fields P (m + 2) d hterm
+    exact .over (by rw [hf.2]; exact hterm) (hf.1.trans ht)
+  | done extra ht => exact Deliv.trext extra ht (loopHead_trext P _ d)
+
+/-- what the end of the step leaves of a `held` configuration whose wait is being consumed -/
+theorem deliv_of_stepRes {fn : Nat} {v : Option Val} {t0 : List Act} (c d : Cfg) (next : Option SObj)
+    (wf : Nat) (wk : Option WF) (aw : List (Nat × Nat))
+    (hst : c.st = .waiting fn wf wk aw) (hw : c.wfs[wf]? = some (.result v)) (ht : c.trace = t0)
+    (hres : StepRes c d next) (hnext : ∀ s, next = some s → s = .running fn (argsOf v) [])
+    (hns : d.stepping = false) (htr : d.trace = c.trace) : Deliv fn v t0 d := by
+  rcases hres with ⟨a, b⟩ | a | ⟨s, hs, a, _⟩
+  · exact .held wf wk aw (a.trans hst) (Or.inl (by rw [b]; exact hw)) (htr.trans ht)
+  · exact .over a (htr.trans ht)
+  · exact .ready (a.trans (hnext s hs)) hns (htr.trans ht)
+
+theorem tickStepper_deliv {fn : Nat} {v : Option Val} {t0 : List Act} (P : Prog) (c : Cfg) (hC : Coh c)
+    (hf : tickFuelOk P c = true) (h : Deliv fn v t0 c) : Deliv fn v t0 (tickStepper P c) := by
+  have hpcok := hC.pcOk
+  unfold PcOk at hpcok
+  cases h with
+  | done extra ht => exact Deliv.trext extra ht (tickStepper_trext P c)
+  | over hterm ht =>
+    exact .over (by rw [(tickStepper_fix P c hterm).1]; exact hterm) ((tickStepper_terminal_trace P c hterm).trans ht)
+  | ready hst hns ht =>
+    have hlive : terminal c.st.label = false := by rw [hst]; simp [SObj.label, terminal, allowed]
+    cases hpc : c.pc with
+    | notStarted =>
+      unfold tickStepper
+      simp only [hpc]
+      exact loopHead_mid_deliv P 998 c ⟨hC.rob, hC.inv, hC.invP, hns, by intro e; rw [hpc]; intro g; cases g⟩ (.ready hst hns ht)
+    | awaitPaused pf =>
+      unfold tickStepper
+      simp only [hpc]
+      split
+      · split
+        · rename_i pf' hpa
+          simp only [hC.invP.pausedPending hlive pf' hpa, if_true]
+          exact .ready hst hns ht
+        · rename_i hpa
+          obtain ⟨x, hx⟩ := stepBodyK_activates P fuel0 c fn (argsOf v) hst hpa
+          exact .done x (by unfold stepBody; rw [hx, ht]; rfl)
+      · exact .ready hst hns ht
+    | inUser b => simp only [hpc] at hpcok; rw [hns] at hpcok; cases hpcok.1
+    | awaitWaiting wf => simp only [hpc] at hpcok; rw [hns] at hpcok; cases hpcok.1
+    | done => simp only [hpc] at hpcok; rw [hlive] at hpcok; cases hpcok.2
+    | crashed e => simp only [hpc] at hpcok
+  | held wf wk aw hst hh ht =>
+    have hlab : c.st.label = .waiting := by rw [hst]; rfl
+    have hlive : terminal c.st.label = false := by rw [hlab]; decide
+    have hcl : c.closed = false := not_closed_of_live hC.inv hlive
+    have hwfo : wfOf c.st = some wf := by rw [hst]; rfl
+    cases hpc : c.pc with
+    | notStarted =>
+      simp only [hpc] at hpcok
+      unfold tickStepper
+      simp only [hpc]
+      exact loopHead_mid_deliv P 998 c ⟨hC.rob, hC.inv, hC.invP, hpcok, by intro e; rw [hpc]; intro g; cases g⟩
+        (.held wf wk aw hst hh ht)
+    | awaitPaused pf =>
+      simp only [hpc] at hpcok
+      have hw := held_result_of_nstep hC.rob hpcok.1 hst hh
+      unfold tickStepper
+      simp only [hpc]
+      split
+      · split
+        · rename_i pf' hpa
+          simp only [hC.invP.pausedPending hlive pf' hpa, if_true]
+          exact .held wf wk aw hst hh ht
+        · rename_i hpa
+          obtain ⟨x, hx⟩ := stepBodyK_waiting_delivers P 999 c fn wf wk aw v hst hw (plain_of_nstep hC.rob hpcok.1)
+            (by intro e; rw [hpc]; intro g; cases g) hcl hpa
+          have hx' : (stepBody P fuel0 c).trace = x ++ actOf fn v :: c.trace := hx
+          exact .done x (by rw [hx', ht])
+      · exact .held wf wk aw hst hh ht
+    | inUser b => simp only [hpc] at hpcok; rw [hpcok.2] at hwfo; cases hwfo
+    | done => simp only [hpc] at hpcok; rw [hlive] at hpcok; cases hpcok.2
+    | crashed e => simp only [hpc] at hpcok
+    | awaitWaiting wf' =>
+      simp only [hpc] at hpcok
+      have hwf' : wf' = wf := by
+        rcases hpcok.2 with g | g
+        · rw [hlive] at g; cases g
+        · rw [hwfo] at g; cases g; rfl
+      subst hwf'
+      have hwfn : wakeFn c = fn := by unfold wakeFn; rw [hst]
+      unfold tickFuelOk at hf
+      simp only [hpc] at hf
+      -- in both cases the tick is `loopHead P fuel0 (wake c fn wf w)` with `w` not pending
+      have key : ∀ w, c.wfs[wf']? = some w → w ≠ .pending → Deliv fn v t0 (wake c fn wf' w) →
+          Deliv fn v t0 (tickStepper P c) := by
+        intro w hw hne hd
+        have hwf : ∀ wf'', wfOf c.st = some wf'' → wf'' = wf' := by
+          intro wf'' h1; rw [hwfo] at h1; cases h1; rfl
+        have hk := wake_rsp c fn wf' w hC.rob hw hne hwf
+        have hm : Mid (wake c fn wf' w) := ⟨hk.1, wake_inv _ _ _ _ hC.inv, wake_invP _ _ _ _ hC.invP, hk.2.1,
+          by intro e; rw [hk.2.2, hpc]; intro g; cases g⟩
+        have := loopHead_mid_deliv P 998 _ hm hd
+        unfold tickStepper
+        simp only [hpc, hw, hst]
+        cases w <;> first | exact absurd rfl hne | exact this
+      rcases hh with hw | ⟨⟨k, hwk⟩, hwkv⟩
+      · apply key _ hw (by intro g; cases g)
+        have hs := endOfStep_spec c (.next (some (.running fn (argsOf v) []))) hC.rob.actOk
+        have hwake : wake c fn wf' (.result v) = endOfStep c (.next (some (.running fn (argsOf v) []))) := by
+          unfold wake; rfl
+        rw [hwake]
+        exact deliv_of_stepRes c _ _ wf' wk aw hst hw ht hs.2.2.2.2 (by intro s hs'; cases hs'; rfl) hs.1 hs.2.2.2.1
+      · apply key _ hwk (by intro g; cases g)
+        subst hwkv
+        have hwake : wake c fn wf' (.interrupted k) =
+            endOfStep { c with st := .waiting fn c.wfs.length none aw, wfs := c.wfs ++ [WF.result v] } (.interruption k) := by
+          unfold wake
+          simp only [hst, if_true]
+        rw [hwake]
+        have hs := endOfStep_spec { c with st := .waiting fn c.wfs.length none aw, wfs := c.wfs ++ [WF.result v] }
+          (.interruption k) hC.rob.actOk
+        exact deliv_of_stepRes { c with st := .waiting fn c.wfs.length none aw, wfs := c.wfs ++ [WF.result v] } _ _
+          c.wfs.length none aw rfl (by simp) ht hs.2.2.2.2 (by intro s hs'; cases hs') hs.1 hs.2.2.2.1
+
+/-- every event keeps `Deliv` -/
+theorem step_deliv {fn : Nat} {v : Option Val} {t0 : List Act} (P : Prog) (c : Cfg) (ev : Ev) (hC : Coh c)
+    (hf : ev = .tick → tickFuelOk P c = true) (h : Deliv fn v t0 c) : Deliv fn v t0 (step P c ev).1 := by
+  cases ev <;> simp only [step]
+  · exact tickStepper_deliv P c hC (hf rfl) h
+  · exact tickCb_deliv c _ h
+  · exact h.quiet (pause_quiet c)
+  · exact h.quiet (play_quiet c)
+  · exact kill_deliv c h
+  · exact resume_deliv c _ h
+  · exact fail_deliv c _ h
+  · unfold cancelFut; split
+    · exact h.quiet (Quiet.of_eq rfl rfl rfl rfl)
+    · exact h
+  · unfold complete; split
+    · dsimp only; split <;> exact h.quiet (Quiet.of_eq rfl rfl rfl rfl)
+    · exact h
+  · exact h.quiet (Quiet.of_eq rfl rfl rfl rfl)
+
+theorem run_deliv {fn : Nat} {v : Option Val} {t0 : List Act} (P : Prog) (c0 : Cfg) (evs : List Ev) (hC : Coh c0)
+    (hf : histFuelOk P c0 evs = true) (h : Deliv fn v t0 c0) : Deliv fn v t0 (run P c0 evs) := by
+  induction evs generalizing c0 with
+  | nil => exact h
+  | cons e es ih =>
+    unfold histFuelOk at hf
+    rw [Bool.and_eq_true] at hf
+    have hfe : e = .tick → tickFuelOk P c0 = true := by intro he; subst he; exact hf.1
+    exact ih _ (step_coh P c0 e hC hfe) hf.2 (step_deliv P c0 e hC hfe h)
+
 end PMF.H6
